@@ -53,6 +53,11 @@ def observe(log, vandal=False):
         o["peak"] = float(iface.get_prev_peak())
         info = iface.infrastructure_info()
         o["info"] = info_dict(info)
+        o["derived"] = {s.session_id: [float(s.remaining_demand), int(s.remaining_time), int(s.arrival_offset)] for s in again}
+        o["index"] = [int(info.get_station_index(sid)) for sid in info.station_ids] + [int(info.num_stations), int(info.num_constraints) if hasattr(info, "num_constraints") else len(info.constraint_ids)]
+        con = iface.get_constraints()
+        # read by position: (matrix, limits, constraint names, station ids)
+        o["constraint_tuple"] = {"matrix": np.asarray(con[0], dtype=float).tolist(), "limits": [float(x) for x in con[1]], "ids": list(con[2]), "stations": list(con[3])}
         o["per_station"] = {}
         for sid in info.station_ids:
             cont, allow = iface.allowable_pilot_signals(sid)
@@ -236,6 +241,18 @@ def check_observations(spec, m, log, R, overlay, rec, labels):
         for j, name in enumerate(info["constraint_ids"]):
             lim, row = exp["constraints"][name]
             require(info["limits"][j] == lim and info["matrix"][j] == row, "infrastructure_constraint_rows", lambda: "constraint %s: limit %r row %r, spec %r %r" % (name, info["limits"][j], info["matrix"][j], lim, row))
+        # the namedtuple form of the same description
+        ct = o["constraint_tuple"]
+        require(ct["stations"] == exp["station_ids"] and sorted(ct["ids"]) == sorted(exp["constraints"]) and len(ct["matrix"]) == len(ct["ids"]) == len(ct["limits"]), "get_constraints_shape", lambda: "period %d: get_constraints() -> %r" % (t, ct))
+        for j, name in enumerate(ct["ids"]):
+            lim, row = exp["constraints"][name]
+            require(ct["limits"][j] == lim and ct["matrix"][j] == row, "get_constraints_rows", lambda: "period %d: get_constraints() constraint %s: limit %r row %r, spec %r %r" % (t, name, ct["limits"][j], ct["matrix"][j], lim, row))
+        n_st = len(exp["station_ids"])
+        require(o["index"] == list(range(n_st)) + [n_st, len(exp["constraints"])], "station_index_and_counts", lambda: "period %d: get_station_index / num_stations / constraints -> %r" % (t, o["index"]))
+        for sid in act:
+            s = m.sessions[sid]
+            rd, rt, ao = o["derived"][sid]
+            require(abs(rd - (s["energy"] - want[sid])) <= 1e-9 * (1 + s["energy"]) and rt == min(s["departure"] - s["arrival"], s["departure"] - t) and ao == 0, "session_derived_fields", lambda: "period %d: session %s remaining_demand / remaining_time / arrival_offset = %r" % (t, sid, o["derived"][sid]))
         for k, sid in enumerate(exp["station_ids"]):
             ps = o["per_station"][sid]
             require(ps == [exp["continuous"][k], exp["allowable"][k], exp["max_pilot"][k], exp["min_pilot"][k], exp["voltages"][k], exp["phases"][k]], "per_station_accessors", lambda: "station %s: %r" % (sid, ps))
